@@ -118,6 +118,12 @@ class Enc(object):
         elif op == "f":
             name = t.args[0]
             xs = [self.real(self.enc(a)) for a in t.args[1:]]
+            if name in ("idiv", "imod"):
+                ys = [self.enc(a) for a in t.args[1:]]
+                ys = [y if z3.is_int(y) else z3.ToInt(y) for y in ys]
+                r = (ys[0] / ys[1]) if name == "idiv" else (ys[0] % ys[1])
+                self.cache[t.id] = r
+                return r
             if name == "abs":
                 r = z3.If(xs[0] < 0, -xs[0], xs[0])
             elif name == "floor":
@@ -129,6 +135,17 @@ class Enc(object):
                     self.side.append(r > 0)
                 if name == "gamma":
                     self.side.append(z3.Implies(xs[0] > 0, r > 0))
+        elif op == "fi":
+            xs = [self.enc(a) for a in t.args[1:]]
+            k = ("fi:" + t.args[0], len(xs))
+            if k not in self.fns:
+                self.fns[k] = z3.Function(t.args[0].replace(":", "_"), *([z3.IntSort()] * (len(xs) + 1)))
+            xs = [x if z3.is_int(x) else z3.ToInt(x) for x in xs]
+            r = self.fns[k](*xs)
+        elif op == "sum":
+            # a bound sum is left uninterpreted (a fresh real constant per distinct sum term): proves less, never more
+            self.n_aux += 1
+            r = z3.Real("sum!%d" % t.id)
         elif op == "ite":
             a, b = self.enc(t.args[1]), self.enc(t.args[2])
             if z3.is_bool(a):
